@@ -4,6 +4,7 @@ import LunarVerif.Spec.C19
 
 Op lines (strings percent-encoded; `%n` = unset):
   cfg max=<n> cool=<s> block=<str|%n> allow=<str|%n> t0=<ticks>
+  dns <host> <outcome> [fail=<n>]   the first n lookups of the host fail transiently (EAI_AGAIN), then <outcome>
   dns <host> ip:<a.b.c.d> | real:<a.b.c.d> | gaierror | oserror:<emfile|enomem> | herror | timeout | unicode
                                                                      (only before the first call / decide)
   decide host=<str> hdr=<...>                                        (TrafficFilter.is_allowed alone)
@@ -47,7 +48,7 @@ def parseCfg (ws : List String) : Option (Cfg × Nat) := do
   let b ← kv ws "block"
   let a ← kv ws "allow"
   let t0 ← kvNat ws "t0"
-  pure (⟨m, c, optStr b, optStr a, []⟩, t0)
+  pure (⟨m, c, optStr b, optStr a, [], []⟩, t0)
 
 def parseHdr (w : String) : Option Hdr :=
   if w == "-" || w == "other" then some .absent
@@ -126,8 +127,18 @@ def parseResult (w : String) : Option Result :=
   [Result.respGw, .respDirect, .raiseGwApp, .raiseDirectApp].find?
     (fun r => fmtResult r == w)
 
+def parseFail : List String → Option Nat
+  | [] => some 0
+  | [w] => kvNat [w] "fail"
+  | _ => none
+
+/-- A later line for the same host replaces the earlier one. -/
+def addDns (cfg : Cfg) (host : Str) (res : Res) (n : Nat) : Cfg :=
+  { cfg with dns := (host, res) :: cfg.dns.filter (fun p => p.1 != host),
+             transient := (host, n) :: cfg.transient.filter (fun p => p.1 != host) }
+
 structure RunSt where
-  cfg : Cfg := ⟨0, 0, none, none, []⟩
+  cfg : Cfg := ⟨0, 0, none, none, [], []⟩
   st : St := St.init 0
   hasCfg : Bool := false
   called : Bool := false
@@ -143,16 +154,12 @@ def runStep (s : RunSt) (line : String) : RunSt × String :=
       ({ cfg := cfg, st := St.init t0, hasCfg := true },
        s!"ok valid={b2s f.valid} max={cfg.maxEff} cool={cfg.coolEff} allow={fmtList f.allow} block={fmtList f.block}")
     | none => (s, "bad-op")
-  | ["dns", h, r] =>
-    match parseRes r with
-    | some res =>
+  | "dns" :: h :: r :: rest =>
+    match parseRes r, parseFail rest with
+    | some res, some n =>
       if !s.hasCfg || s.called then (s, "bad-op")
-      else
-        let host := (pctDec h).toList
-        -- a later line for the same host replaces the earlier one
-        let dns := (host, res) :: s.cfg.dns.filter (fun p => p.1 != host)
-        ({ s with cfg := { s.cfg with dns := dns } }, "ok")
-    | none => (s, "bad-op")
+      else ({ s with cfg := addDns s.cfg (pctDec h).toList res n }, "ok")
+    | _, _ => (s, "bad-op")
   | ["adv", w] =>
     match kvNat [w] "d" with
     | some d => if !s.hasCfg then (s, "bad-op") else ({ s with st := (step s.cfg s.st (.adv d)).1 }, "ok")
@@ -163,15 +170,16 @@ def runStep (s : RunSt) (line : String) : RunSt × String :=
       if !s.hasCfg then (s, "bad-op") else
       let (st', o) := call s.cfg s.st c
       ({ s with st := st', called := true },
-       s!"sent={fmtSent o.sent} res={fmtResult o.result} cnt={st'.cnt} ok={b2s st'.ok}")
+       s!"sent={fmtSent o.sent} res={fmtResult o.result} cnt={st'.cnt} ok={b2s st'.ok} flt={b2s (callFault s.cfg s.st c)}")
     | none => (s, "bad-op")
   | "decide" :: ws =>
     match kv ws "host", (kv ws "hdr").bind parseHdr with
     | some h, some hd =>
       if !s.hasCfg then (s, "bad-op") else
       let host := (pctDec h).toList
-      let r := isAllowed s.cfg (mkFilter s.cfg) s.st.cache host hd
-      ({ s with st := (step s.cfg s.st (.decide host hd)).1, called := true }, s!"allowed={b2s r.1}")
+      let r := isAllowed s.cfg (mkFilter s.cfg) s.st.cache s.st.lookups host hd
+      ({ s with st := (step s.cfg s.st (.decide host hd)).1, called := true },
+       s!"allowed={b2s r.allowed} flt={b2s r.fault}")
     | _, _ => (s, "bad-op")
   | ["probe", w] =>
     let h := (pctDec w).toList
@@ -179,7 +187,7 @@ def runStep (s : RunSt) (line : String) : RunSt × String :=
   | _ => (s, "bad-op")
 
 structure JudgeSt where
-  cfg : Cfg := ⟨0, 0, none, none, []⟩
+  cfg : Cfg := ⟨0, 0, none, none, [], []⟩
   now : Nat := 0
   hist : List Obs := []     -- most recent first
   decs : List DecObs := []  -- most recent first
@@ -191,28 +199,26 @@ def judgeStep (s : JudgeSt) (op out : String) : JudgeSt :=
     match parseCfg ws with
     | some (cfg, t0) => { s with cfg := cfg, now := t0 }
     | none => { s with bad := some "unparsable-cfg" }
-  | ["dns", h, r] =>
-    match parseRes r with
-    | some res =>
-      let host := (pctDec h).toList
-      { s with cfg := { s.cfg with dns := (host, res) :: s.cfg.dns.filter (fun p => p.1 != host) } }
-    | none => { s with bad := some "unparsable-dns" }
+  | "dns" :: h :: r :: rest =>
+    match parseRes r, parseFail rest with
+    | some res, some n => { s with cfg := addDns s.cfg (pctDec h).toList res n }
+    | _, _ => { s with bad := some "unparsable-dns" }
   | ["adv", w] =>
     match kvNat [w] "d" with
     | some d => { s with now := s.now + d }
     | none => { s with bad := some "unparsable-adv" }
   | "call" :: ws =>
     let ows := words out
-    match parseCall ws, (kv ows "sent").bind parseSent, (kv ows "res").bind parseResult with
-    | some c, some sent, some res => { s with hist := ⟨s.now, c, ⟨sent, res⟩⟩ :: s.hist }
-    | some _, _, _ => { s with bad := some ("unexpected-answer:" ++ pctEnc out) }
-    | none, _, _ => { s with bad := some "unparsable-call" }
+    match parseCall ws, (kv ows "sent").bind parseSent, (kv ows "res").bind parseResult, kvNat ows "flt" with
+    | some c, some sent, some res, some f => { s with hist := ⟨s.now, c, ⟨sent, res⟩, f != 0⟩ :: s.hist }
+    | some _, _, _, _ => { s with bad := some ("unexpected-answer:" ++ pctEnc out) }
+    | none, _, _, _ => { s with bad := some "unparsable-call" }
   | "decide" :: ws =>
     match kv ws "host", (kv ws "hdr").bind parseHdr with
     | some h, some hd =>
-      match kvNat (words out) "allowed" with
-      | some a => { s with decs := ⟨(pctDec h).toList, hd, a != 0⟩ :: s.decs }
-      | none =>
+      match kvNat (words out) "allowed", kvNat (words out) "flt" with
+      | some a, some f => { s with decs := ⟨(pctDec h).toList, hd, a != 0, f != 0⟩ :: s.decs }
+      | _, _ =>
         -- `raised:<type>`: the decision raised instead of answering
         { s with bad := some ("decision-did-not-answer host=" ++ h ++ " answer=" ++ pctEnc out) }
     | _, _ => { s with bad := some "unparsable-decide" }
@@ -236,7 +242,7 @@ def judgeFinish (s : JudgeSt) : String :=
           let why := if !noSwallow o then "result-or-legs-wrong"
             else if !cooldownRespected s.cfg r o then "gateway-contacted-during-cooldown"
             else if !filterRespected s.cfg o then "excluded-destination-routed"
-            else "routable-destination-not-tried-through-gateway"
+            else "routable-destination-not-tried-through-gateway(no-resolver-fault-in-this-call)"
           s!"fail - {why} call#{i} t={o.t} host={encStr o.inp.host} sent={fmtSent o.out.sent} res={fmtResult o.out.result}"
         | none => s!"fail - spec-violated call#{i}"
       | none => "fail - spec-violated"
